@@ -115,6 +115,10 @@ def gen_plan(rng: random.Random, tier: str) -> dict:
                 granted.append({"s": s, "r": r, "name": nm, "url": grant[nm]})
             steps.append({"at": t, "op": "seed", "s": s, "r": r, "names": req_names, "grant": grant,
                           "origin_delay": rng.choice([0.0, 0.0, 0.02])})
+        elif x < 0.315:
+            # the region's circuit goes away (DisableSimulator / CloseCircuit): what was granted stays granted - late
+            # requests and the addons' own lookups still refer to it
+            steps.append({"at": t, "op": "teardown", "s": s, "r": r})
         elif x < 0.4:
             steps.append({"at": t, "op": "proxy_cap", "s": s, "r": r, "name": rng.choice(PROXY_NAMES),
                           "times": rng.choice([1, 2, 2, 3])})
@@ -284,7 +288,13 @@ def run_plan(plan: dict) -> RunResult:
                 url = w + "/?texture_id=1"
             rec_of_step[i] = world.request({"method": "GET", "url": url, "headers": {}, "st": st})
 
-        ops = {"seed": op_seed, "proxy_cap": op_proxy_cap, "temp": op_temp, "byname": op_byname, "lookup": op_lookup}
+        def op_teardown(i, st):
+            res.fault("region_teardown")
+            region_obj(st["s"], st["r"]).mark_dead()
+            torn.add((st["s"], st["r"]))
+
+        torn = set()
+        ops = {"teardown": op_teardown, "seed": op_seed, "proxy_cap": op_proxy_cap, "temp": op_temp, "byname": op_byname, "lookup": op_lookup}
         for i, st in enumerate(plan["steps"]):
             def _run(i=i, st=st):
                 env.tr("step", i, st["op"])
